@@ -882,7 +882,7 @@ def run(ctx):
         for k, v in seen.items():
             per_op[k] = per_op.get(k, 0) + v
         objcheck.replay_cover(ctx, g, [tok(INIT)], exe, variant, ["table"], keyfn, walks=walks, jobs=4,
-                              pairs=60000 if ctx.tier == "quick" else 400000)
+                              pairs=60000 if ctx.tier == "quick" else 200000)
         del g
     ctx.cov["edges_per_op"] = dict(sorted(per_op.items()))
     trace_validation(ctx, exe)
